@@ -21,6 +21,7 @@ EXPLANATION = (
     " Added after seed round 3: (7) FLAG-FWD - every decoder that takes `more_available` receives its caller's own flag (the nested ESC-prefixed decode included); (8) the byte ranges of within_double_byte as integer intervals (C11.8)."
     ' Round 4: (9) string methods are applied to an event of the nested ESC decode only after an isinstance test excluded every tuple event (mouse 4-tuples and cursor-position 3-tuples).'
     ' Round-4 triage: (10) a caller of parse_input without an event loop (the synchronous get_input) decodes a held partial sequence itself: every path from its first synchronous parse passes a test of _partial_codes whose true branch parses with wait_for_more=False. Round 5: (11) the SGR mouse decoder finds the first `M` or `m` with one joint test; (12) every os.read() drain loop leaves on an empty read (end of file); (10) now also accepts a wait_for_more argument that can be False (the refined fix 190a3c8 waits while new bytes keep arriving).'
+    ' Round 6: (10) after every parse_input call of the synchronous get_input that may leave bytes pending, _partial_codes is tested again before the function returns (the completion step is a loop).'
 )
 NOT_DECIDED = (
     "That event names/coordinates are the documented ones for every sequence; equality of event lists under all cuts for value-dependent recognisers "
@@ -551,6 +552,19 @@ def rule_sync_timeout(ctx: Ctx) -> RuleResult:
         fn = nodes_where(cfg, lambda s: s is first)
         if not good or not all(cfg.must_pass(n, good, ends=[cfg.exit], labels=("T", "F", "n")) for n in fn):
             rr.add(finding("PASS", fi, first, f"{fi.name}() parses input without an event loop (`{norm(first, 60)}`) and never decodes a held partial sequence: parse_input() can only set its completion alarm on an event loop, so a lone ESC or a sequence prefix stays in _partial_codes until another key arrives - the timeout never 'expires'", construct=f"{fi.name}: no timeout decode of _partial_codes"))
+            continue
+        # every parse can leave a (new) partial sequence behind - also the one made after waiting, when more but
+        # still incomplete input arrived: after *each* parse_input call the function tests _partial_codes again
+        # before it returns (the completion step is a loop, not a single retry)
+        for c in calls:
+            for n in nodes_where(cfg, lambda s, c=c: s is c):
+                v = next((k.value for k in c.keywords if k.arg == "wait_for_more"), c.args[3] if len(c.args) > 3 else None)
+                if isinstance(v, ast.Constant) and v.value is False:
+                    continue  # decodes everything as it stands: nothing can stay pending
+                ok = cfg.must_pass(n, tests, ends=[cfg.exit], labels=("T", "F", "n"))
+                rr.inst(f"{short(fi)}: re-test after {norm(c, 40)}", True, {"parse": norm(c, 70), "pending_retested_before_return": ok})
+                if not ok:
+                    rr.add(finding("PASS", fi, c, f"after `{norm(c, 60)}` {fi.name}() can return without testing _partial_codes again: when the bytes that arrived during the wait are still incomplete (ESC | [ | pause | A) they are put back, no further timeout runs - with max_wait None the next call blocks until another key and glues the pending bytes to it", construct=f"{fi.name}: partial sequence not re-tested after a parse"))
     return rr
 
 
@@ -645,6 +659,7 @@ from ..mutants import Mut  # noqa: E402
 _E = "urwid/display/escape.py"
 _R = "urwid/display/_raw_display_base.py"
 MUTANTS = [
+    Mut("sync-completion-single-retry", "urwid/display/_raw_display_base.py", "urwid.display._raw_display_base.Screen.get_input", "        while self._partial_codes:", "        if self._partial_codes:", "PASS|display._raw_display_base.Screen.get_input|get_input: partial sequence not re-tested after a parse"),
     Mut("raw-input-drain-ignores-eof", "urwid/display/_posix_raw_display.py", "urwid.display._posix_raw_display.Screen._read_raw_input", "                data = os.read(fd, 1024)\n                if not data:\n                    # end of file: the descriptor stays \"readable\" forever\n                    break\n                chars.extend(data)", "                chars.extend(os.read(fd, 1024))", "PROG|display._posix_raw_display.Screen._read_raw_input"),
     Mut("sgr-mouse-prefers-press-terminator", _E, "KeyqueueTrie.read_sgrmouse_info", "        value = \"\"\n        pos_m = 0\n        found_m = False\n        for k in keys:\n            value += chr(k)\n            if k in {ord(\"M\"), ord(\"m\")}:\n                found_m = True\n                break\n            pos_m += 1\n        if not found_m:", "        value = \"\".join(chr(k) for k in keys)\n        pos_m = value.find(\"M\")\n        if pos_m < 0:\n            pos_m = value.find(\"m\")\n        found_m = pos_m >= 0\n        value = value[: pos_m + 1]\n        if not found_m:", "SIB|display.escape.KeyqueueTrie.read_sgrmouse_info"),
     Mut("sync-get-input-holds-partial-forever", "urwid/display/_raw_display_base.py", "urwid.display._raw_display_base.Screen.get_input", "        while self._partial_codes:\n", "        while False:\n", "PASS|display._raw_display_base.Screen.get_input"),
